@@ -14,17 +14,11 @@ import PdshVerif.Opt.Settings
 import PdshVerif.Opt.Spec
 import PdshVerif.Opt.Lemmas
 import PdshVerif.Opt.Accept
+import PdshVerif.Opt.Table
 
 namespace PdshVerif.C18
 open PdshVerif PdshVerif.Opt
 
-/-- command line > environment > built-in default -/
-def pick {α : Type} (cmd env : Option α) (dflt : α) : α := (cmd <|> env).getD dflt
-
-/-- the conversions the code applies: string_to_int for -f and the variables, atoi (or, repaired,
-    string_to_int) for -t / -u; 0 stands for "refused", which cannot occur in an accepted run -/
-def convS (fx : Fixes) (a : Str) : Int := (stringToInt fx a).getD 0
-def convT (fx : Fixes) (a : Str) : Int := (timeoutArg fx a).getD 0
 
 /-! ## what the tokens are -/
 
@@ -53,6 +47,75 @@ theorem getopt_render (os : Str) (opts : List OptW) (operands : List Str) (hwf :
       simp only [List.flatMap_cons, OptW.words, List.cons_append, List.nil_append, getoptGo, h1, if_false,
         cluster, hk, Option.isSome_some, List.head?_cons, List.map_cons, OptW.tok, ne_eq, not_true_eq_false]
       rw [ih']
+
+/-- THE SCAN ITSELF: every way getopt(3) lets a sequence of options be written — each option a word of its own,
+    its argument detached or attached, flags clustered in front of the next option word, the options ended by
+    `--`, by the first word that is not option-like, or by the end of the command line — yields exactly that
+    sequence of options, in order, and the operands that follow -/
+theorem getopt_spelled (os : Str) {opts : List OptW} {ops ws : List Str} (h : Spelled os opts ops ws) :
+    getopt os ws = (opts.map OptW.tok, ops) := by
+  unfold getopt
+  induction h with
+  | dashdash ops => simp [getoptGo]
+  | empty => simp [getoptGo]
+  | stop a rest h =>
+    have h1 : a ≠ ['-', '-'] := h '-' []
+    rw [getoptGo]
+    · simp only [h1, if_false]
+      first | rfl | simp
+    · intro c cs e; exact h c cs e
+  | @flag ch opts ops ws hk hne _ ih =>
+    have h1 : (['-', ch] : Str) ≠ ['-', '-'] := by simp [hne]
+    simp only [getoptGo, h1, if_false, cluster, hk, ih, List.map_cons, OptW.tok]
+    rfl
+  | @sep ch a opts ops ws hk hne _ ih =>
+    have h1 : (['-', ch] : Str) ≠ ['-', '-'] := by simp [hne]
+    simp only [getoptGo, h1, if_false, cluster, hk, List.head?_cons, List.map_cons, OptW.tok, ne_eq,
+      not_true_eq_false]
+    rw [ih]
+    rfl
+  | @att ch a opts ops ws hk hne ha _ ih =>
+    have h1 : ('-' :: ch :: a : Str) ≠ ['-', '-'] := by simp [hne]
+    simp only [getoptGo, h1, if_false, cluster, hk, ha, ne_eq, not_false_eq_true, if_true, ih, List.map_cons,
+      OptW.tok]
+    simp
+  | @glue f w opts ops ws hk hne hw hw' _ ih =>
+    obtain ⟨c, cs, rfl⟩ := List.exists_cons_of_ne_nil hw
+    have h1 : ('-' :: f :: c :: cs : Str) ≠ ['-', '-'] := by simp [hne]
+    have h2 : ('-' :: c :: cs : Str) ≠ ['-', '-'] := by
+      intro e; apply hw'; simpa using e
+    rw [getoptGo] at ih
+    simp only [h2, if_false] at ih
+    rw [getoptGo]
+    simp only [h1, if_false]
+    have hc : cluster os (f :: c :: cs) ws.head? =
+        (Tok.opt f none :: (cluster os (c :: cs) ws.head?).1, (cluster os (c :: cs) ws.head?).2) := by
+      simp [cluster, hk]
+    simp only [hc, List.cons_append, List.map_cons, OptW.tok]
+    have ih1 := congrArg Prod.fst ih
+    have ih2 := congrArg Prod.snd ih
+    simp only at ih1 ih2
+    rw [ih1, ih2]
+
+
+/-- ... hence the SPELLING does not matter: two command lines that spell the same option sequence and operands
+    give the same result (accepted with the same settings, or refused alike), in every environment.
+    (`hearly`: the early pass scans with the same option string — repaired, or no module registers options.) -/
+theorem spelling_independent (fx : Fixes) (d : Defaults) (p : Pers) (env : Env) {opts : List OptW}
+    {ops ws ws' : List Str} (hearly : fx.early = true ∨ d.modOpts = [])
+    (h : Spelled (fullString d p) opts ops ws) (h' : Spelled (fullString d p) opts ops ws') :
+    effective fx d p env ws = effective fx d p env ws' := by
+  have hes : earlyString fx d p = fullString d p := by
+    unfold earlyString fullString
+    rcases hearly with he | he <;> simp [he]
+  unfold effective
+  rw [hes, getopt_spelled _ h, getopt_spelled _ h']
+
+example : Spelled (optstring .dsh) [⟨'N', none⟩, ⟨'b', none⟩, ⟨'f', some "3".toList⟩, ⟨'w', some "h".toList⟩]
+    ["cmd".toList] (["-Nbf3", "-w", "h", "cmd"].map String.toList) :=
+  .glue (by decide) (by decide) (by decide) (by decide)
+    (.glue (by decide) (by decide) (by decide) (by decide)
+      (.att (by decide) (by decide) (by decide) (.sep (by decide) (by decide) (.stop _ _ (by intro c cs e; simp at e)))))
 
 /-! ## precedence -/
 
@@ -112,6 +175,86 @@ theorem precedence {fx : Fixes} {d : Defaults} {p : Pers} {env : Env} {argv : Li
   · rw [k7]
     cases lastArg 'e' toks <;> cases p <;> cases getenv env "PDSH_REMOTE_PDCP_PATH" <;> simp [pick, optDefault, Pers.isPcp]
 
+
+/-! ## the settings table generated from opt.c -/
+
+theorem letterOf_fanout : letterOf "fanout" = 'f' := by decide
+theorem letterOf_ctmo : letterOf "connect_timeout" = 't' := by decide
+theorem letterOf_utmo : letterOf "command_timeout" = 'u' := by decide
+theorem letterOf_rcmd : letterOf "rcmd_name" = 'R' := by decide
+theorem letterOf_misc : letterOf "misc_modules" = 'M' := by decide
+theorem letterOf_path : letterOf "remote_program_path" = 'e' := by decide
+
+/-- SETTINGS TABLE, environment side: for EVERY row (variable, opt_t field, conversion) that harness/consts/
+    optable.c reads off opt_env() of the tree under test — not a typed list — an accepted configuration obeys
+    command line > that variable > default, the option letter being the one the generated switch table gives for
+    the field and the environment conversion the one named in the row.  A variable added to opt_env changes the
+    generated table and this theorem stops checking until the model covers it. -/
+theorem env_table_precedence {fx : Fixes} {d : Defaults} {p : Pers} {env : Env} {argv : List Str} {c : Cfg}
+    (h : effective fx d p env argv = .ok c) : ∀ r ∈ Gen.OT_ENVS, EnvRowHolds fx d p env argv c r := by
+  obtain ⟨a1, a2, a3, _, a5, a6, a7⟩ := precedence h
+  have cs : ∀ t, (convByName fx "string_to_int" t).getD 0 = convS fx t := fun t => by simp [convByName, convS]
+  intro r hr
+  simp only [Gen.OT_ENVS, List.mem_cons, List.mem_nil_iff, or_false] at hr
+  rcases hr with rfl | rfl | rfl | rfl | rfl | rfl | rfl
+  · simp only [EnvRowHolds, if_true, letterOf_fanout, cs]; exact a1
+  · simp only [EnvRowHolds, letterOf_ctmo, cs]; simpa using a2
+  · simp only [EnvRowHolds, letterOf_utmo, cs]; simpa using a3
+  · simp only [EnvRowHolds, letterOf_rcmd]; simpa using a5
+  · simp only [EnvRowHolds, letterOf_misc]; simpa using a6
+  · simp [EnvRowHolds]
+  · simp only [EnvRowHolds, letterOf_path]; simpa using a7
+
+/-- SETTINGS TABLE, option side: every `case` of the generated switch table of opt_args is accounted for — the
+    remote user (no variable) obeys command line > default; the fields with a variable are the rows above; what
+    remains sets a flag or touches no field. -/
+theorem opt_table_precedence {fx : Fixes} {d : Defaults} {p : Pers} {env : Env} {argv : List Str} {c : Cfg}
+    (h : effective fx d p env argv = .ok c) : ∀ r ∈ Gen.OT_OPTS, OptRowHolds d p argv c r := by
+  obtain ⟨_, _, _, a4, _, _, _⟩ := precedence h
+  intro r hr
+  by_cases hru : r.2.1 = "ruser"
+  · have : r.1.toList.headD ' ' = 'l' := by
+      revert hru; revert r
+      decide
+    simp only [OptRowHolds, hru, if_true, this]
+    exact a4
+  · have : (Gen.OT_ENVS.any (fun e => e.2.1 = r.2.1)) = true ∨ r.2.2 = "flag" ∨ r.2.2 = "none" := by
+      revert hru; revert r
+      decide
+    simp only [OptRowHolds, hru, if_false]
+    rcases this with h1 | h2
+    · simp [h1]
+    · by_cases h1 : (Gen.OT_ENVS.any (fun e => e.2.1 = r.2.1)) = true
+      · simp [h1]
+      · simp [h1, h2]
+
+/-- NUMERIC SETTINGS, one theorem over the generated tables: every row of the option and environment tables whose
+    opt_t field is an `int` (OT_INT_FIELDS, read off opt.h) converts with string_to_int — no atoi is left — and that
+    conversion (repaired D5) either refuses a text or yields exactly the integer the text denotes, within int
+    range: no truncation, wrap or clamp for ANY numeric option or variable. -/
+theorem numeric_exact_or_refused (fx : Fixes) (hd5 : fx.d5 = true) :
+    ∀ r ∈ Gen.OT_OPTS ++ Gen.OT_ENVS, r.2.1 ∈ Gen.OT_INT_FIELDS →
+      r.2.2 = "string_to_int" ∧
+      ∀ s v, convByName fx r.2.2 s = some v → CInt.denotes s = some v ∧ CInt.INT_MIN ≤ v ∧ v ≤ CInt.INT_MAX := by
+  intro r hr hf
+  have hc : r.2.2 = "string_to_int" := by
+    revert hf; revert r
+    decide
+  refine ⟨hc, ?_⟩
+  intro s v hv
+  rw [hc] at hv
+  simp only [convByName, if_true] at hv
+  exact stringToInt_denotes fx hd5 s v hv
+
+/-- ... and the model's switch applies exactly that conversion to the argument of each of these options
+    (`atoi` repaired, as the generated table says of the code) -/
+theorem numeric_options_use_table_conv (fx : Fixes) (hat : fx.atoi = true) (d : Defaults) (arg : Option Str) :
+    action fx d (.opt (letterOf "fanout") arg) = (convByName fx "string_to_int" (arg.getD [])).elim (.exit 1) .fanout ∧
+    action fx d (.opt (letterOf "connect_timeout") arg) = (convByName fx "string_to_int" (arg.getD [])).elim (.exit 1) .ctmo ∧
+    action fx d (.opt (letterOf "command_timeout") arg) = (convByName fx "string_to_int" (arg.getD [])).elim (.exit 1) .utmo := by
+  rw [letterOf_fanout, letterOf_ctmo, letterOf_utmo, action_f, action_t, action_u]
+  simp [convByName, timeoutArg, hat]
+
 /-! ## independence -/
 
 /-- `lastArg ch` sees only the `-ch` tokens: inserting, deleting or permuting *other* options leaves it alone -/
@@ -168,7 +311,8 @@ theorem rejected_partial {fx : Fixes} {d : Defaults} {p : Pers} {env : Env} {arg
   obtain ⟨c1, c3, he, ha, hp, hv⟩ := effective_ok_inv h
   obtain ⟨_, hr⟩ := postArgs_ok hp
   obtain ⟨_, _, _, a4, _, _, _⟩ := precedence h
-  unfold optVerify at hv
+  rw [optVerify_plain _ _ _ _ _ hplain.1 hplain.2] at hv
+  unfold optVerifyPlain at hv
   simp only [hplain.1, hplain.2, Bool.not_false, Bool.and_self, Bool.not_true, Bool.false_or,
     Bool.and_eq_true, decide_eq_true_eq] at hv
   refine ⟨hv.1.2.1.1.2, hv.1.2.1.2, ?_, hr⟩
@@ -206,7 +350,8 @@ theorem rejected {fx : Fixes} {d : Defaults} {p : Pers} {env : Env} {argv : List
   obtain ⟨c1, c3, he, ha, hp, hv⟩ := effective_ok_inv h
   obtain ⟨f, ct, ut, hf, hct, hut, _⟩ := optEnv_ok he
   obtain ⟨a1, a2, a3, _, _, _, _⟩ := precedence h
-  unfold optVerify at hv
+  rw [optVerify_plain _ _ _ _ _ hplain.1 hplain.2] at hv
+  unfold optVerifyPlain at hv
   simp only [hplain.1, hplain.2, hd4, Bool.not_false, Bool.and_self, Bool.not_true, Bool.false_or,
     Bool.and_eq_true, decide_eq_true_eq] at hv
   have cmdOk : ∀ ch a, lastArg ch (getopt (fullString d p) argv).1 = some a →
@@ -274,7 +419,8 @@ theorem never_hangs {fx : Fixes} {d : Defaults} {p : Pers} {env : Env} {argv : L
     (hd4 : fx.d4 = true) (h : effective fx d p env argv = .ok c)
     (hplain : c.pcpServer = false ∧ c.pcpClient = false) : c.fanout ≥ 1 ∧ runTerminates c = true := by
   obtain ⟨_, _, _, _, _, hv⟩ := effective_ok_inv h
-  unfold optVerify at hv
+  rw [optVerify_plain _ _ _ _ _ hplain.1 hplain.2] at hv
+  unfold optVerifyPlain at hv
   simp only [hplain.1, hplain.2, hd4, Bool.not_false, Bool.and_self, Bool.not_true, Bool.false_or,
     Bool.and_eq_true, decide_eq_true_eq] at hv
   have : c.fanout ≥ 1 := hv.1.2.2
@@ -430,7 +576,8 @@ theorem accepts_valid (fx : Fixes) (d : Defaults) (p : Pers) (env : Env) (opts :
   -- opt_verify
   have hver : optVerify fx d p c4 operands.length = true := by
     subst hc4
-    unfold optVerify
+    rw [optVerify_plain _ _ _ _ _ (by simpa using g2) (by simpa using g3)]
+    unfold optVerifyPlain
     simp only [g2, g3, g1, hwc, Bool.not_false, Bool.and_self, Bool.not_true, Bool.false_or, Bool.true_and,
       Bool.and_eq_true, Bool.or_eq_true, decide_eq_true_eq, Bool.not_eq_true', Bool.and_true]
     refine ⟨⟨?_, ⟨⟨hct0, hut0⟩, Or.inr hfan⟩⟩, ?_⟩
